@@ -32,6 +32,7 @@ fn fault_name(f: &Fault) -> &'static str {
         Fault::None => "none",
         Fault::FailWrite { .. } => "fail-write",
         Fault::AcceptThenFail { .. } => "accept-n-then-fail",
+        Fault::AcceptThenFailOnce { .. } => "accept-n-fail-once-recover",
         Fault::ZeroAt { .. } => "ok-zero",
         Fault::Schedule { .. } => "short+interrupted",
         Fault::OneByte => "one-byte",
@@ -198,6 +199,14 @@ pub fn check_all(h: &History, level: u8, obs: &mut Obs) -> Vec<(Violation, Fault
         let vs = check_one(h, &f, &r, obs);
         push(vs, &f, &mut out);
         obs.count("fault_points:byte-offset", 1);
+        if i % 3 == 0 && !small {
+            // the same offset on a sink that fails one call and then recovers (back-pressure
+            // style kinds included): what it holds must stay a prefix, nothing may be re-sent
+            let f = Fault::AcceptThenFailOnce { n: o, kind: [6usize, 5, 0][(i / 3) % 3] };
+            let vs = check_one(h, &f, &r, obs);
+            push(vs, &f, &mut out);
+            obs.count("fault_points:byte-offset-then-recover", 1);
+        }
     }
     // (iii) Ok(0) at every call
     for k in 0..r.writes {
